@@ -1,6 +1,7 @@
 """C12 — breaker transitions are atomic and probes exclusive under concurrency (schedule correspondence)."""
 import itertools
 import struct
+import sys
 
 from vlib.core import Case
 
@@ -225,6 +226,36 @@ def nontrivial(case, impl):
     if len(set(states)) < 2:
         return None
     return hash((case.ops[0], tuple(case.tags[2:3]), tuple(t.split(":")[0] + t.split(":")[1] for t in last)))
+
+
+def run(ctx):
+    """standard flow + one extra phase: the oracle's verdicts (computed from the implementation's trace) must coincide with
+    the verdicts computed from the model's monitor fields — the ones the theorems are about (`ghost` mode of the driver)"""
+    from vlib import std, core
+
+    def extra(ctx, eng):
+        n = 4000 if ctx.tier == "quick" else 40000
+        st = stream(ctx)
+        skip = sum(1 for _ in exhaustive(CONFIGS[:1] if ctx.tier == "quick" else CONFIGS))
+        cases = list(itertools.islice(st, skip, skip + n))
+        text = core.cases_text(cases)
+        impl, err = core.run_impl(eng.binary, PROP, text)
+        if impl is None:
+            ctx.violation("ghost-harness-error.txt", str(err), no_input=True)
+            return
+        orc, err = core.run_lean(PROP, "oracle", "\n".join(impl) + "\n")
+        gh, err2 = core.run_lean(PROP, "ghost", text)
+        if orc is None or gh is None:
+            ctx.violation("ghost-driver-error.txt", str(err) + str(err2), no_input=True)
+            return
+        diff = core.compare(orc, gh)
+        ctx.cov["oracle_vs_model_monitors_cases"] = len(cases)
+        if diff is not None:
+            body = (f"oracle verdict and the verdict derived from the model's monitor fields differ at line {diff}:\n"
+                    f"oracle: {orc[diff] if diff < len(orc) else '<missing>'}\nmodel : {gh[diff] if diff < len(gh) else '<missing>'}\n")
+            ctx.violation("oracle-vs-monitors.txt", body, no_input=True)
+
+    return std.run(ctx, sys.modules[__name__], extra=extra)
 
 
 META = {
